@@ -20,8 +20,9 @@ EXPLANATION = (
     "names bound once in the kept prefix; D5 every :symbols: / :quantity_notation: role names an object the role resolver "
     "accepts, every public Symbol of a symbols sub-module is exported in symbols.__all__, __all__ names are bound; D6 no loop "
     "with order-visible effects iterates an unordered collection in the generator; D7 every inserted evaluation-disable node is "
-    "paired with a reset node in the same iteration and reset stores the default True. Not decided: that Sphinx/exec/printing "
-    "actually succeed on every module.")
+    "paired with a reset node in the same iteration and reset stores the default True; D8 the role resolvers register every name "
+    "bound to a Symbol / Quantity (the isinstance test is the only admission test) and no f-string of the generator or printers emits a "
+    "literal {name} of a variable in scope. Not decided: that Sphinx/exec/printing actually succeed on every module.")
 ASSUMPTIONS = [
     "the kept prefix is computed with a replica of the patcher's rule; anchors in patch.py are checked so that a change of that rule ends the run with ANALYSIS-ERROR",
     "CPython 3.12 scoping: list/set/dict comprehensions are inlined (PEP 709), generator expressions, lambdas, functions and class bodies are not",
